@@ -48,7 +48,7 @@ class C08(Check):
                    'each mode is compared with branches run in the SAME mode, so early completion after take/first on plain observables is part of the reference',
                    'branch programs whose standalone run errors (mean(reduce) on an empty key ...) are discarded']
     ANCHORS = ['rxsci/operators/tee_map.py', 'rxsci/mux/muxconnectable.py']
-    REQUIRED_TAGS = ['plain', 'mux', 'group', 'roll', 'roll_eq', 'split', 'zip', 'merge', 'combine_latest', 'branches=2', 'branches=3', 'branches=4', 'nested-tee', 'over-256-keys', 'after-aborted-subscriptions', 'prelude:dispose', 'prelude:peek']
+    REQUIRED_TAGS = ['plain', 'mux', 'group', 'roll', 'roll_eq', 'split', 'zip', 'merge', 'combine_latest', 'branches=2', 'branches=3', 'branches=4', 'nested-tee', 'over-256-keys', 'after-aborted-subscriptions', 'prelude:dispose', 'prelude:peek', 'a-branch-with-failing-records']
     REQUIRED_OBSERVED = ['tuples_compared', 'branch_traces_recorded', 'lifetimes_checked']
 
     def generate(self, rng, tier, shard, nshards):
@@ -79,13 +79,29 @@ class C08(Check):
                 b, _ = gen.gen_pipeline(rng, 'i', rng.randint(1, 3), opts, st, opts.max_depth)
                 branches.append(b)
             items = gen.gen_items(rng, hi=rng.choice([6, 12, 30]), sorted_=(ctx == 'time_split'))
+            dirty = None
+            if k % 5 == 2 and not plain and items:
+                # one branch starts with a map whose function raises on some records; the mux errors leave the tee and
+                # are dropped right behind it.  The other branches' values, waiting in the join, are not to be touched.
+                dirty = {'branch': rng.randrange(nb), 'vals': sorted(set(rng.sample(items, min(len(items), rng.randint(1, 3)))))}
             yield {'branches': branches, 'join': ['zip', 'merge', 'combine_latest'][(k // len(names)) % 3], 'ctx': ctx,
-                   'ctx_node': CTX[ctx](rng) if CTX[ctx] else None, 'items': items}
+                   'ctx_node': CTX[ctx](rng) if CTX[ctx] else None, 'items': items, **({'dirty': dirty} if dirty else {})}
 
     def evaluate(self, case):
         out = Outcome()
         branches, join, ctx, items = case['branches'], case['join'], case['ctx'], case['items']
-        tee = ['tee_map', join, branches]
+        after = []
+        if case.get('dirty'):
+            d = case['dirty']
+            out.tags.append('a-branch-with-failing-records')
+            branches = [([['map', 'raise_on:%s:id' % ','.join(str(v) for v in d['vals'])]] + b if j == d['branch'] else b) + [['ignore']]
+                        for j, b in enumerate(branches)]
+            # (the reference runs each branch with rs.error.ignore() at its end; the real run has it after the join)
+            real = [b[:-1] for b in branches]
+            after = [['ignore']]
+        else:
+            real = branches
+        tee = ['tee_map', join, real]
         out.tags += [ctx, join, 'branches=%d' % len(branches)]
         if case.get('prelude') and progs.usable_prelude([tee], case['prelude']):
             prelude_tags(dict(case, prelude=progs.usable_prelude([tee], case['prelude'])), out)
@@ -97,14 +113,14 @@ class C08(Check):
             if want is None:
                 out.discarded = 'branch errors standalone'
                 return out
-            got = progs.run_driven([tee], items, ctx, prelude=case.get('prelude'))
+            got = progs.run_driven([tee] + after, items, ctx, prelude=case.get('prelude'))
             if got.err is not None or not got.done:
                 return out.fail('tee-errored-where-its-branches-do-not', error=repr(got.err), done=got.done, ctx=ctx)
             out.observed['lifetimes_checked'] += 1
             return self._cmp(out, list(zip(got.pos, got.out)), want, positions=True, info={'items': items})
         # keyed: lifetimes of the enclosing context
         node = list(case['ctx_node'])
-        node[-1] = [tee]
+        node[-1] = [tee] + after
         head, tail = [], []
         snap = progs.run_mux([node], items, taps={(0,): (head, tail)}, prelude=case.get('prelude'))
         hl, odd1 = lifetimes(head)
